@@ -361,6 +361,16 @@ func (x *Exec) specEq(env *SpecEnv, a, b Value) *Term {
 		if o, ok := b.(OpaqueV); ok && o.T.Op == "int" {
 			return And(Eq(av.Len, IntLit(0)), Eq(av.Base, IntLit(0)))
 		}
+		if bv, ok := b.(SliceV); ok {
+			// the same slice value: same backing array, window and element arrays
+			cs := []*Term{Eq(av.Len, bv.Len), Eq(av.Off, bv.Off), Eq(av.Base, bv.Base)}
+			for _, p := range av.Order {
+				if bl, ok := bv.Leaves[p]; ok {
+					cs = append(cs, Eq(av.Leaves[p], bl))
+				}
+			}
+			return And(cs...)
+		}
 	case FuncV:
 		return Eq(x.asTermAny(av), x.asTermAny(b))
 	case MapV:
@@ -537,11 +547,20 @@ func (x *Exec) specCallExpr(env *SpecEnv, e *SExpr) Value {
 			return BoolV{App("timeparse_ok", SBool, x.asTerm(x.specEval(env, e.Args[0])))}
 		case "timeparse_val":
 			return IntV{App("timeparse_val", SInt, x.asTerm(x.specEval(env, e.Args[0])))}
+		case "httptime_ok":
+			return BoolV{App("httpparsetime_ok", SBool, x.asTerm(x.specEval(env, e.Args[0])))}
+		case "httptime_val":
+			return IntV{App("httpparsetime_val", SInt, x.asTerm(x.specEval(env, e.Args[0])))}
 		case "calls":
 			f := x.asTermAny(x.specEval(env, e.Args[0]))
 			return IntV{Select(env.st.ghostArr("callcount", SInt), f)}
 		case "httpstatus":
 			return IntV{Select(env.st.ghostArr("httpstatus", SInt), x.asTermAny(x.specEval(env, e.Args[0])))}
+		case "httperrs":
+			return IntV{Select(env.st.ghostArr("httperrs", SInt), x.asTermAny(x.specEval(env, e.Args[0])))}
+		case "ioerr":
+			// ioerr(e): e is an error of modelled I/O (never one of the program's sentinels, wraps none)
+			return BoolV{Gt(x.asTerm(x.specEval(env, e.Args[0])), IntLit(1<<40))}
 		case "httpwrites":
 			return IntV{Select(env.st.ghostArr("httpwrites", SInt), x.asTermAny(x.specEval(env, e.Args[0])))}
 		case "cookie_has":
@@ -698,6 +717,14 @@ func (x *Exec) specCallExpr(env *SpecEnv, e *SExpr) Value {
 			return IntV{x.keyTerm(env.st, x.specEval(env, e.Args[0]))}
 		case "allocated":
 			return BoolV{Select(env.st.alloc, x.asTerm(x.specEval(env, e.Args[0])))}
+		case "upreqhdr":
+			// upreqhdr(): the header of the request handed to the last (*http.Client).Do, as it was then
+			hp := x.L.pkgOf("net/http")
+			mt := hp.Types.Scope().Lookup("Header").Type().Underlying().(*types.Map)
+			return MapV{ID: env.st.ghostInt("upreqhdr"), Type: mt}
+		case "ctxcancellable":
+			// ctxcancellable(c): context c can be cancelled (by a client hanging up, a deadline, ...)
+			return BoolV{ctxCancellable(x.asTermAny(x.specEval(env, e.Args[0])))}
 		case "iserr":
 			// iserr(e, Sentinel): errors.Is(e, Sentinel)
 			a := x.asTerm(x.specEval(env, e.Args[0]))
